@@ -132,6 +132,13 @@ def handleSt (st : Option TdfSt) (cmd : String) (args : List V) : Option (Option
       let s ← st
       let (s', o) := step s .reopen
       pure (some s', outV o)
+  | "tdf.getall", [] => do
+      let s ← st
+      let live := liveOf s.entries
+      pure (st, V.list (live.map (fun e =>
+        match getBlock s e.typ with
+        | some b => V.list [.int e.typ, b.toV]
+        | none => V.list [.int e.typ, .sym "none"])))
   | "tdf.state", [] => do
       let s ← st
       pure (st, V.list [.sym "ok", .hex s.view, .int (if s.disk == s.view then 1 else 0), .list (s.entries.map entryV),
